@@ -78,6 +78,7 @@ type Result struct {
 	Final      []string       `json:"final,omitempty"`
 	Dump       string         `json:"-"`
 	Releases   []RelInfo      `json:"-"`
+	Unpaused   []string       `json:"-"`
 }
 
 // RelInfo says which call a release step released (used by the fault sweep).
@@ -196,6 +197,7 @@ func runInBubble(spec RunSpec, res *Result) {
 	res.Final = s.describeState()
 	res.Dump = s.finalDump()
 	res.Releases = s.Releases
+	res.Unpaused = s.Unpaused
 }
 
 func tail(l []string, n int) []string {
